@@ -193,6 +193,8 @@ package stor
 //@   ghost ri int = i
 //@   ensures! found: r != 0 ==> 0 <= rc && rc < len(unbox(s.chunks.v, "[][]byte")) && 0 <= ri && r == uint64(rc) * s.chunksize + uint64(ri) && uint64(ri) + uint64(len(str)) <= s.chunksize && forall k :: 0 <= k && k < len(str) ==> unbox(s.chunks.v, "[][]byte")[rc][ri + k] == str[k]
 //@   loop 0 invariant -1 <= c && c < len(chunks) && 0 < n && n <= s.chunksize && uint64(c) * s.chunksize + n <= off
+//@   loop 0 invariant window: (off & (s.chunksize - 1)) != 0 ==> n == (c == int(off >> uint64(s.shift)) ? (off & (s.chunksize - 1)) : s.chunksize)
+//@   loop 0 invariant window0: (off & (s.chunksize - 1)) == 0 ==> n == s.chunksize
 //@   loop 0 decreases c + 1
 //@ func (s *Stor) FirstOffset(off, str) (r)
 //@   mode bv
@@ -202,7 +204,9 @@ package stor
 //@   ghost rc int = c
 //@   ghost ri uint64 = n + uint64(i)
 //@   ensures! found: r != 0 ==> 0 <= rc && rc < len(unbox(s.chunks.v, "[][]byte")) && r == uint64(rc) * s.chunksize + ri && ri + uint64(len(str)) <= s.chunksize && forall k :: 0 <= k && k < len(str) ==> unbox(s.chunks.v, "[][]byte")[rc][ri + uint64(k)] == str[k]
-//@   loop 0 invariant 0 <= c && c <= len(chunks) && n < s.chunksize && (c < len(chunks) ==> uint64(c) * s.chunksize + n >= off)
+//@   loop 0 invariant 0 <= c && c <= len(chunks) && n < s.chunksize && (c < len(chunks) ==> uint64(c) * s.chunksize + n >= off) && int(off >> uint64(s.shift)) <= c && n == (c == int(off >> uint64(s.shift)) ? (off & (s.chunksize - 1)) : 0)
+// (window: in the first chunk the search starts at the in-chunk position of off, in every later chunk at 0.
+// Completeness - no occurrence is skipped - was attempted with an uninterpreted occurrence predicate and did not discharge.)
 //@   loop 0 decreases len(chunks) - c
 //@ func (s *Stor) Size() (r)
 //@   assumed
